@@ -124,7 +124,7 @@ def _mk(spec, env):
             prog.vf.reset(())
             a = prog.args(spec["warm"])
             try:
-                prog.ov(*a[0])
+                prog.fn(*a[0])
             except Exception:  # noqa: BLE001
                 pass
     return prog
@@ -135,7 +135,7 @@ def _body(prog, call):
 
     def run():
         prog.vf.reset(alt)
-        return prog.ov(*pos)
+        return prog.fn(*pos)
     return run
 
 
